@@ -615,9 +615,35 @@ def check_res_string_parse(ctx, rule, prog):
         texts = [sorted(norm(a).replace('"', "'") for a in alts(e)) for e in exp.elts]
         before = "%s.split(':')[0]" % arg
         after = "%s.split(':')[1]" % arg
-        ctx.ob(rule, 'parse:chain-before-colon', texts[0] == [before],
-               'the chain is the part before the colon, unmodified (it is compared with the raw '
-               'chain column, which is case sensitive); found %s' % texts[0], lib, rets[0])
+        # the chain part must go through the same normalisation as Atom.chain_id
+        # (a blank chain column is stored as '_'), and through nothing else
+        amod = prog.mod('atom')
+        sp = amod.func('Atom.set_properties')
+        blank_to_underscore = False
+        line_p = sp.args.args[1].arg
+        for n in walk_no_nested(sp):
+            if isinstance(n, ast.If) and isinstance(n.test, ast.Compare) and isinstance(n.test.ops[0], ast.Eq) \
+                    and norm(n.test.left) == 'self.chain_id' and isinstance(n.test.comparators[0], ast.Constant) \
+                    and n.test.comparators[0].value == ' ' and any(
+                        isinstance(b, ast.Assign) and norm(b.targets[0]) == 'self.chain_id'
+                        and isinstance(b.value, ast.Constant) and b.value.value == '_' for b in n.body):
+                blank_to_underscore = True
+            if isinstance(n, ast.Assign) and norm(n.targets[0]) == 'self.chain_id' \
+                    and norm(n.value).replace('"', "'") in (
+                        "%s[21].strip() or '_'" % line_p, "%s[21:22].strip() or '_'" % line_p):
+                blank_to_underscore = True
+        atom_class = "blank->'_'" if blank_to_underscore else 'raw'
+        if texts[0] == [before]:
+            parse_class = 'raw'
+        elif texts[0] in (["%s.strip() or '_'" % before], ["%s.strip(' ') or '_'" % before]):
+            parse_class = "blank->'_'"
+        else:
+            parse_class = 'other: %s' % texts[0]
+        ctx.ob(rule, 'parse:chain-before-colon', parse_class == atom_class,
+               'the chain of a -i entry is the part before the colon, normalised exactly as '
+               'Atom.chain_id is (atoms: %s; -i entries: %s) and otherwise unmodified - it is '
+               'compared with the chain id of the atoms, which is case sensitive'
+               % (atom_class, parse_class), lib, rets[0])
         ctx.ob(rule, 'parse:number-is-int',
                sorted(texts[1]) == sorted(['int(%s)' % after, 'int(%s[:-1])' % after]),
                'the residue number is int() of the part after the colon, with or without its '
